@@ -302,9 +302,54 @@ def check_ascii_case(case, st):
         st.violation('ascii-stdout:exit-status', dict(d, expected=1))
 
 
+# ---- the connection-rate check switched on (it is per target and takes an early exit for targets without any Diffie-Hellman-style key
+# exchange): lists mixing such targets with ordinary and failing ones still end, with one result per target
+def rate_cases():
+    out = []
+    for others in (('TERR',), ('GEX4096',), ('REFUSED', 'TERR'), ('TERR', 'BADBLOCK'), ('PQONLY',), ('CLEAN', 'RSA2048')):
+        for pos in range(len(others) + 1):
+            archs = others[:pos] + ('PQONLY',) + others[pos:]
+            for threads in (1, 2):
+                for fmt in ('text', 'json'):
+                    out.append(('rate', archs, threads, fmt))
+    return out
+
+
+def check_rate_case(case, st):
+    _k, archs, threads, fmt = case
+    res, s = MT.run_multi(list(archs), threads, fmt, (), ('connect',), rate=True)
+    st.execution(res.world, outcome=('rate', res.status, fmt), root=case, nontrivial=case)
+    d = {'archs': list(archs), 'threads': threads, 'fmt': fmt, 'status': res.status}
+    n = len(archs)
+    if res.hang or res.exc:
+        st.violation('rate-check-on:%s' % ('hang-or-deadlock' if res.hang else 'escaped-exception'), dict(d, hang=res.hang, exc=res.exc, stdout_tail=res.stdout[-200:]))
+        return
+    if fmt == 'json':
+        try:
+            doc = json.loads(res.stdout)
+        except ValueError as e:
+            st.violation('rate-check-on:json-not-one-document', dict(d, error=str(e), stdout_tail=res.stdout[-200:]))
+            return
+        if not isinstance(doc, list) or len(doc) != n:
+            st.violation('rate-check-on:json-array-length', dict(d, got=len(doc) if isinstance(doc, list) else None))
+        return
+    blocks = MT.split_text(res.stdout)
+    if len(blocks) != n:
+        st.violation('rate-check-on:block-count', dict(d, got=len(blocks), stdout_tail=res.stdout[-200:]))
+        return
+    for i, a in enumerate(archs):
+        if a in MT.FAILING:
+            continue
+        mine = [b for b in blocks if MT.block_host(b) == i]
+        if len(mine) != 1 or not report.TextReport(mine[0]).has_alg_report():
+            st.violation('rate-check-on:healthy-target-lost-report', dict(d, target=a))
+
+
 def work(chunk, st):
     for case in chunk:
-        if case[0] == 'ascii':
+        if case[0] == 'rate':
+            check_rate_case(case, st)
+        elif case[0] == 'ascii':
             check_ascii_case(case, st)
         elif case[0] == 'dup':
             check_dup_case(case, st)
@@ -353,6 +398,7 @@ def cases(tier):
     out += form_cases()
     out += dup_cases()
     out += ascii_cases()
+    out += rate_cases()
     return out
 
 
@@ -381,7 +427,7 @@ def run(tier, seed):
         PID, tier, seed, st, t0,
         rule='target lists of length 2 (quick; plus one triple per failure) / 2-3 (thorough) mixing healthy archetypes %s with every failure '
              'archetype %s in every position x threads x {text,-j}; DFS over gate schedules (preemption bound quick 1 / thorough 2); plus '
-             'targets-file syntax failures (out-of-range port, blank/whitespace lines); the same target listed two or three times; every failing archetype written as [v6]:port, [v6], v6, v4:port, v4, name:port next to a healthy target; non-trivial = distinct (list, threads, format, completion order)' % (HEALTHY, FAILING),
+             'targets-file syntax failures (out-of-range port, blank/whitespace lines); the same target listed two or three times; every failing archetype written as [v6]:port, [v6], v6, v4:port, v4, name:port next to a healthy target; lists with the connection-rate check switched on around a target it has nothing to measure on; non-trivial = distinct (list, threads, format, completion order)' % (HEALTHY, FAILING),
         assumptions=['thread switches only at virtual I/O gates', 'per-target statuses come from fresh single-target runs in the same environment'],
         exhaustive=True, traces_validated=validated, extra={'cases': len(cs)})
 
